@@ -1,24 +1,42 @@
 #!/venv/bin/python
-"""C03 — output is a deterministic function of each file, independent of run context."""
-import os, sys, itertools
+"""C03 — output is a deterministic function of each file, independent of run context.
+
+proof side   Props/C03.lean over (i) the model of check_all / main with explicit global state, (ii) the hash-order model,
+             (iii) the inventories regenerated from the source on every run (tools/translate/state2lean.py).
+tie          * pins on the regenerated inventories (kinds, not text)
+             * correspondence `check_all`: the REAL cli.check_all (sequential / ProcessPoolExecutor + real check_file_s) around a stub
+               check_file, against the Lean model `Cli.checkAll` (native driver), for job counts and completion orders
+falsifier    the real CLI in subprocesses: hash seeds, repeated runs, file lists that interleave charsets / formats / flags, rotations,
+             sub-lists, option sets, -j with uneven sizes; and the real main() with check_all called several times in ONE process
+             (same paths with other contents, other orders, -j), each compared with fresh single-file runs.
+"""
+import base64, json, os, subprocess, sys
 sys.path.insert(0, os.path.join(os.path.dirname(os.path.abspath(__file__)), '..'))
+sys.path.insert(0, os.path.join(os.path.dirname(os.path.abspath(__file__)), '..', 'translate'))
 import common
 import e2e_common as E
 from gen import catalog as CAT
 
+WORKERS = 4
+HERE = os.path.dirname(os.path.abspath(__file__))
+
+# ------------------------------------------------------------------------------------------------ files
+
 def build_files(chk, wd, n_gen, n_corpus):
+    """-> [(relative path, class label)]; the classes are what the lists interleave"""
     rng = chk.rng
     files = []
-    # recorded witness (known finding C03:pybrace-type-set-order): always present
-    wit = ('msgid ""\nmsgstr ""\n"Content-Type: text/plain; charset=UTF-8\\n"\n\n#, python-brace-format\nmsgid "{0:n}"\nmsgstr "{0:s}"\n')
-    files.append(wd.write('corpus/hashorder.po', wit))
-    # cross-file state: the same escaped / raw text under different declared charsets; the same unusual character, the same msgid
-    # and the same header defect in several files (each file must be judged on its own)
+    def add(name, data, cls):
+        files.append((os.path.relpath(wd.write(name, data), wd.path), cls))
+    # witness of the repaired finding C03:pybrace-type-set-order (', '.join(frozenset)): always present
+    add('corpus/hashorder.po', 'msgid ""\nmsgstr ""\n"Content-Type: text/plain; charset=UTF-8\\n"\n\n#, python-brace-format\nmsgid "{0:n}"\nmsgstr "{0:s}"\n', 'flags')
+    # cross-file state: the same escaped / raw text under different declared charsets; the same unusual character, the same msgid and
+    # the same header defect in several files (each file must be judged on its own)
     hdr = lambda cs: ('msgid ""\nmsgstr ""\n"Project-Id-Version: x 1\\n"\n"Language: de\\n"\n"Content-Type: text/plain; charset=%s\\n"\n\n' % cs).encode()
     body = (b'msgid "price in \\xa4"\nmsgstr "Preis in \\xa4\\n"\n\nmsgid "cost \\244"\nmsgstr "Kosten \\244\\n"\n\nmsgid "raw \xa4"\nmsgstr "roh \xa4\\n"\n\n'
             b'msgid "bell"\nmsgstr "Glocke\\a\xbf"\n\nmsgid "bell"\nmsgstr "x"\n')
-    for cs in ('ISO-8859-1', 'ISO-8859-15', 'ISO-8859-2', 'KOI8-R', 'CP1252', 'ISO-8859-1'):
-        files.append(wd.write(f'cs/{len(files)}-{cs}/de.po', hdr(cs) + body))
+    for cs in ('ISO-8859-1', 'ISO-8859-15', 'ISO-8859-2', 'KOI8-R', 'CP1252', 'ISO-8859-1', 'KOI8-RU', 'ISO-8859-16'):
+        add(f'cs/{len(files)}-{cs}/de.po', hdr(cs) + body, 'cs:' + cs)
     # several format flags on one message, each checker with something to say (order of the checkers)
     fl = ['c-format', 'python-format', 'python-brace-format', 'perl-brace-format']
     two = 'msgid ""\nmsgstr ""\n"Content-Type: text/plain; charset=UTF-8\\n"\n\n'
@@ -29,67 +47,345 @@ def build_files(chk, wd, n_gen, n_corpus):
                 k += 1
                 two += f'#, {a}, {b}\nmsgid "%s items {{a}} {k}"\nmsgstr "%d Elemente {{b}} %(x)s"\n\n'
     two += '#, ' + ', '.join(fl) + '\nmsgid "%s all {a}"\nmsgstr "%d alle {b}"\n\n#, ' + ', '.join(reversed(fl)) + '\nmsgid "%s all {a} 2"\nmsgid_plural "%s alls {a}"\nmsgstr[0] "%d {b}"\nmsgstr[1] "%d {c}"\n'
-    files.append(wd.write('corpus/multiflag.po', two))
+    add('corpus/multiflag.po', two, 'flags')
+    # sets with several elements at every site that prints one: type sets, missing/unknown argument sets, duplicated header fields,
+    # unusual characters, unknown header fields close to known ones, conflicting / redundant flags
+    many = ('msgid ""\nmsgstr ""\n"Project-Id-Version: a 1\\n"\n"Project-Id-Version: b 1\\n"\n"Project-Id-Version: c 1\\n"\n"Language: de\\n"\n"Language: fr\\n"\n"Language: pl\\n"\n'
+            '"MIME-Version: 1.0\\n"\n"MIME-Version: 1.1\\n"\n"MIME-Version: 2\\n"\n"Content-Type: text/plain; charset=UTF-8\\n"\n"Content-Type: text/plain; charset=utf8\\n"\n'
+            '"Content-Transfer-Encoding: 8bit\\n"\n"Content-Transfer-Encoding: 7bit\\n"\n"Content-Transfer-Encoding: binary\\n"\n'
+            '"Plural-Forms: nplurals=2; plural=n != 1;\\n"\n"Plural-Forms: nplurals=3; plural=n%3;\\n"\n"Plural-Forms: nplurals=1; plural=0;\\n"\n'
+            '"PO-Revision-Date: 2012-11-01 14:42+0100\\n"\n"PO-Revision-Date: 2013-11-01 14:42+0100\\n"\n"PO-Revision-Date: 2014-11-01 14:42+0100\\n"\n'
+            '"Last-Translator: A <a@example.org>\\n"\n"Last-Translator: B <b@example.org>\\n"\n"Last-Translator: C <c@example.org>\\n"\n'
+            '"Language-Team: X <x@example.org>\\n"\n"Language-Team: Y <y@example.org>\\n"\n"Language-Team: Z <z@example.org>\\n"\n'
+            '"Report-Msgid-Bugs-To: q@example.org\\n"\n"Report-Msgid-Bugs-To: r@example.org\\n"\n"Report-Msgid-Bugs-To: s@example.org\\n"\n'
+            '"X-Poedit-Language: German\\n"\n"X-Poedit-Language: French\\n"\n"X-Poedit-Language: Polish\\n"\n"X-Poedit-Country: GERMANY\\n"\n"X-Poedit-Country: FRANCE\\n"\n'
+            '"Langauge: de\\n"\n"Plural-Form: x\\n"\n"Content-Typ: y\\n"\n"Mime-Version: 1.0\\n"\n"Last-Translators: z\\n"\n"Foo: \\a\\b\\v\\f\\177\\n"\n\n'
+            '#, python-brace-format\nmsgid "{0:d} {1:s} {a:f} {b} {c} {d}"\nmsgstr "{0:s} {1:d} {a:s} {x} {y} {z}"\n\n'
+            '#, python-format\nmsgid "%(a)s %(b)d %(c)f %(d)s"\nmsgstr "%(a)d %(b)s %(x)s %(y)s %(z)s"\n\n'
+            '#, perl-brace-format\nmsgid "{a} {b} {c} {d}"\nmsgstr "{x} {y} {z} {w}"\n\n'
+            '#, c-format, no-c-format, python-format, no-python-format, possible-c-format, possible-python-format, range: 1..2, range: 3..4, wrap, no-wrap\nmsgid "%d %s"\nmsgstr "%s %d"\n\n'
+            'msgid "uc"\nmsgstr "\\a\\b\\v\\f\\177 x\xc2\x80\xc2\x81"\n').encode('latin-1')
+    add('corpus/manysets.po', many, 'flags')
+    # XML fragments (lib/xml.py draws a random entity name at import: repeated runs must agree)
+    xml = ('msgid ""\nmsgstr ""\n"Content-Type: text/plain; charset=UTF-8\\n"\n\n#. type: Content of: <para>\nmsgid "<b>bold</b>"\nmsgstr "<b>fett</i>"\n\n'
+           '#. type: Content of: <para><title>\nmsgid "a &amp; b"\nmsgstr "a & b <unclosed>"\n\n#. type: Content of: <x>\nmsgid "ok"\nmsgstr "<a b=c>"\n')
+    add('corpus/xmlfrag.po', xml, 'xml')
+    # language taken from the path (LC_MESSAGES), plural forms of several shapes (the lexer / parser caches are shared by all files)
+    for i, (lang, pf) in enumerate([('de', 'nplurals=2; plural=n != 1;'), ('pl', 'nplurals=3; plural=n==1 ? 0 : n%10>=2 && n%10<=4 && (n%100<10 || n%100>=20) ? 1 : 2;'),
+                                    ('ja', 'nplurals=1; plural=0;'), ('fr', 'nplurals=2; plural=n > 1;'), ('ar', 'nplurals=6; plural=n==0 ? 0 : n==1 ? 1 : n==2 ? 2 : n%100>=3 && n%100<=10 ? 3 : n%100>=11 ? 4 : 5;'),
+                                    ('xx', 'nplurals=2; plural=n/0;'), ('cs', 'nplurals=3; plural=(n==1) ? 0 : (n>=2 && n<=4) ? 1 : 2;'), ('de', 'nplurals=2; plural=(n != 1')]):
+        text = ('msgid ""\nmsgstr ""\n"Project-Id-Version: p 1\\n"\n"Content-Type: text/plain; charset=UTF-8\\n"\n"Plural-Forms: %s\\n"\n\n'
+                '#, c-format\nmsgid "%%d file"\nmsgid_plural "%%d files"\nmsgstr[0] "%%d a"\nmsgstr[1] "b"\n' % pf)
+        add(f'loc{i}/{lang}/LC_MESSAGES/app.po', text, 'plural')
+    # NEAR-TWIN families: files that differ in exactly ONE dimension (language modifier, territory, charset, plural forms, template or
+    # not, header flag, one escaped byte): whatever a cache or registry is keyed on, two members agree on the key and differ in the answer
+    def twin(lang='sr', charset='ISO-8859-2', pf='nplurals=3; plural=n%10==1 && n%100!=11 ? 0 : n%10>=2 && n%10<=4 && (n%100<10 || n%100>=20) ? 1 : 2;',
+             fuzzy=False, body='msgid "one"\nmsgstr "jedan \\251"\n\n#, c-format\nmsgid "%d file"\nmsgid_plural "%d files"\nmsgstr[0] "%d a"\nmsgstr[1] "%d b"\nmsgstr[2] "%d c"\n'):
+        return (('#, fuzzy\n' if fuzzy else '') + 'msgid ""\nmsgstr ""\n"Project-Id-Version: twin 1\\n"\n"Report-Msgid-Bugs-To: t@example.org\\n"\n'
+                '"POT-Creation-Date: 2012-11-01 14:42+0100\\n"\n"PO-Revision-Date: 2012-11-01 14:42+0100\\n"\n"Last-Translator: T <t@example.org>\\n"\n'
+                '"Language-Team: T <tt@example.org>\\n"\n' + ('"Language: %s\\n"\n' % lang if lang else '') +
+                '"MIME-Version: 1.0\\n"\n"Content-Type: text/plain; charset=%s\\n"\n"Content-Transfer-Encoding: 8bit\\n"\n' % charset +
+                ('"Plural-Forms: %s\\n"\n' % pf if pf else '') + '\n' + body)
+    families = {
+        'modifier': [twin(lang=l) for l in ('sr', 'sr@latin', 'sr@ijekavianlatin', 'sr_RS', 'sr_RS@latin', 'sr')],
+        'modifier2': [twin(lang=l, charset='ISO-8859-1', pf='nplurals=2; plural=n != 1;') for l in ('en', 'en@quot', 'en@boldquot', 'en_GB', 'en@shaw')],
+        'modifier3': [twin(lang=l, charset='KOI8-R', pf='nplurals=1; plural=0;') for l in ('uz', 'uz@cyrillic', 'tt', 'tt@iqtelif')],
+        'charset': [twin(lang='sr@latin', charset=c) for c in ('ISO-8859-2', 'ISO-8859-5', 'UTF-8', 'ISO-8859-1', 'CP1250', 'ISO-8859-16')],
+        'plural': [twin(pf=f) for f in ('nplurals=3; plural=n%10==1 && n%100!=11 ? 0 : n%10>=2 && n%10<=4 && (n%100<10 || n%100>=20) ? 1 : 2;', 'nplurals=3; plural=n%3;',
+                                        'nplurals=2; plural=n != 1;', 'nplurals=3; plural=n%10==1 && n%100!=11 ? 0 : n%10>=2 && n%10<=4 && (n%100<10 || n%100>=20) ? 1 : 2', None)],
+        'fuzzy': [twin(fuzzy=False), twin(fuzzy=True)],
+        'escape': [twin(body='msgid "a \\xa9 b"\nmsgstr "c \\xa9 d\\n"\n', charset=c) for c in ('ISO-8859-2', 'ISO-8859-5', 'ISO-8859-1', 'KOI8-R')],
+    }
+    for fam, members in families.items():
+        for i, text in enumerate(members):
+            add(f'twin/{fam}/{i}/app.po', text.encode('ascii'), 'twin:' + fam)
+    # the same bytes as PO, as POT (template) and as MO (other parser): twins in the file-type dimension
+    base = twin(lang='sr@latin', charset='UTF-8').encode('ascii')
+    add('twin/type/a/x.po', base, 'twin:type')
+    add('twin/type/a/x.pot', base, 'twin:type')
+    try:
+        CAT.compile_mo(os.path.join(wd.path, 'twin/type/a/x.po'), os.path.join(wd.path, 'twin/type/a/x.mo'))
+        files.append(('twin/type/a/x.mo', 'twin:type'))
+    except Exception:
+        pass
+    # files that are not gettext files (unknown-file-type), and a Debian package for --unpack-deb (C17 owns check_deb; here it is one more file)
+    add('misc/readme.txt', 'hello\n', 'other')
+    add('misc/data.bin', b'\x00\x01\x02', 'other')
+    add('misc/noext', 'msgid ""\nmsgstr ""\n', 'other')
+    gen_paths = []
     for i in range(n_gen):
         text, ext = CAT.gen_po(rng)
-        files.append(wd.write(f'gen/f{i:03d}{ext}', text))
+        add(f'gen/f{i:03d}{ext}', text, 'pot' if ext == '.pot' else 'gen')
+        gen_paths.append(files[-1][0])
+    # binary catalogues of some of them (other constructor, other parser, same checks)
+    n_mo = 0
+    for rel in gen_paths:
+        if n_mo >= max(4, n_gen // 5) or not rel.endswith('.po'):
+            continue
+        try:
+            CAT.compile_mo(os.path.join(wd.path, rel), os.path.join(wd.path, rel[:-3] + '.mo'))
+        except Exception:
+            continue
+        files.append((rel[:-3] + '.mo', 'mo'))
+        n_mo += 1
     corpus = CAT.corpus(common.REPO)
     rng.shuffle(corpus)
     for name, data in corpus[:n_corpus]:
-        files.append(wd.write('bb/' + name, data))
-    # a big file, so that with -j its completion comes after that of later small ones
-    big = ''.join(CAT.gen_po(rng)[0] if k == 0 else '\nmsgid "m%d %%s"\nmsgstr "t%d"\n' % (k, k) for k in range(1500))
-    files.insert(1, wd.write('gen/big.po', big))
-    return [os.path.relpath(f, wd.path) for f in files]
+        add('bb/' + name, data, 'mo' if name.endswith(('.mo', '.gmo')) else 'corpus')
+    # big files, so that with -j their completion comes after that of later small ones
+    for name, n in (('gen/big.po', 1500), ('gen/big2.po', 700)):
+        big = ''.join(CAT.gen_po(rng)[0] if k == 0 else '\nmsgid "m%d %%s"\nmsgstr "t%d"\n' % (k, k) for k in range(n))
+        add(name, big, 'big')
+    return files
+
+def build_deb(wd):
+    """a binary package with one PO file that has something to report and two files that are not gettext files; None without dpkg-deb"""
+    import shutil
+    if not shutil.which('dpkg-deb'):
+        return None
+    root = os.path.join(wd.path, 'debroot')
+    wd.write('debroot/DEBIAN/control', 'Package: gizmo\nVersion: 1\nArchitecture: all\nMaintainer: T <t@example.org>\nDescription: test\n')
+    wd.write('debroot/usr/share/locale/de/LC_MESSAGES/gizmo.po', 'msgid ""\nmsgstr ""\n"Content-Type: text/plain; charset=UTF-8\\n"\n\n#, c-format\nmsgid "%d files"\nmsgstr "%s Dateien"\n')
+    wd.write('debroot/usr/share/doc/gizmo/README', 'not a catalogue\n')
+    try:
+        p = subprocess.run(['dpkg-deb', '--root-owner-group', '-b', root, os.path.join(wd.path, 'misc', 'gizmo.deb')], capture_output=True, timeout=60)
+    except Exception:
+        return None
+    return 'misc/gizmo.deb' if p.returncode == 0 else None
+
+def interleave(files, rng):
+    """round-robin over the classes: neighbours differ in charset / format / file type"""
+    groups = {}
+    for f, c in files:
+        groups.setdefault(c, []).append(f)
+    keys = sorted(groups)
+    rng.shuffle(keys)
+    for k in keys:
+        rng.shuffle(groups[k])
+    out = []
+    while any(groups.values()):
+        for k in keys:
+            if groups[k]:
+                out.append(groups[k].pop())
+    return out
+
+# ------------------------------------------------------------------------------------------------ helper process
+
+def probe(mode, plan, timeout=600):
+    p = subprocess.run([common.PY, os.path.join(HERE, 'c03_probe.py'), common.REPO, mode], input=json.dumps(plan), capture_output=True, text=True, timeout=timeout,
+                       env=dict(os.environ, PYTHONHASHSEED='0', PYTHONDONTWRITEBYTECODE='1', LC_ALL='C.UTF-8'))
+    try:
+        return json.loads(p.stdout)
+    except ValueError:
+        return {'fatal': (p.stdout[-500:] + p.stderr[-1500:])}
+
+def driver_correspondence(chk):
+    """real cli.check_all around a stub check_file  vs  the Lean model Cli.checkAll"""
+    rng = chk.rng
+    cases = []
+    shapes = [(0, 1), (1, 1), (1, 4), (2, 1), (2, 2), (3, 2), (4, 4), (5, 2), (5, 3), (6, 6), (3, 1), (4, 3)]
+    if chk.thorough:
+        shapes += [(n, j) for n in (2, 3, 5, 7, 8) for j in (2, 3, 8)]
+    for n, j in shapes:
+        toks = [f't{n}x{j}f{i}' for i in range(n)]
+        kind = rng.choice(['reverse', 'reverse', 'random', 'forward'])
+        if kind == 'reverse':
+            delays = [25 * (n - 1 - i) for i in range(n)]
+        elif kind == 'forward':
+            delays = [25 * i for i in range(n)]
+        else:
+            delays = [25 * k for k in rng.sample(range(n), n)]
+        cases.append({'tokens': toks, 'delays': delays, 'jobs': j})
+    res = probe('driver', {'cases': cases})
+    lines, impl, meta = [], [], []
+    if 'fatal' in res:
+        chk.broken.append({'kind': 'correspondence', 'stream': 'check_all', 'problem': res['fatal'][-800:]})
+        return
+    for case, r in zip(cases, res['cases']):
+        order = sorted(range(len(case['tokens'])), key=lambda i: (case['delays'][i], i))     # expected completion order with enough workers
+        sched = '.'.join(str(i) for i in order) or '-'
+        lines.append(' '.join(['cli', 'checkall', str(case['jobs']), sched] + case['tokens']))
+        impl.append('ok ' + ','.join(r['lines']) if not r['error'] else 'err ' + r['error'].split(':')[0])
+        meta.append((case, r))
+    dis, model = chk.stream('check_all', lines, impl)
+    for i in dis:
+        case, r = meta[i]
+        # the property's own statement on this input: the tokens must come out in argument order
+        if r['error'] or r['lines'] != case['tokens']:
+            chk.violation('check_all does not write the per-file outputs in argument order', {
+                'kind': 'check_all-order', 'files': case['tokens'], 'sleep_ms_per_file': case['delays'], 'jobs': case['jobs'],
+                'expected_stdout_lines': case['tokens'], 'got_stdout_lines': r['lines'], 'error': r['error'],
+                'replay': f"echo '{json.dumps({'cases': [case]})}' | {common.PY} tools/checks/c03_probe.py {common.REPO} driver"})
+            return
+
+def cache_correspondence(chk):
+    """the cache model of Model/CliState.lean against a REAL functools.lru_cache inside the REAL check_all (stub check_file decoding texts
+    through one memoised function): keyed on all inputs (any job count) and keyed on less (sequential: the stale values are deterministic);
+    and the once-flag of Checker.patch_environment against the real class, one fresh process per sequence"""
+    rng = chk.rng
+    cases = []
+    css = ['L1', 'L9', 'L2', 'K8']
+    texts = ['a', 'b', 'c', 'd']
+    for k in range(40 if chk.thorough else 14):
+        n = rng.randint(1, 6)
+        specs = [rng.choice(css) + '/' + '+'.join(rng.choice(texts) for _ in range(rng.randint(1, 3))) for _ in range(n)]
+        mode = 'lossy' if k % 2 == 0 else 'full'
+        cases.append({'mode': mode, 'jobs': 1 if mode == 'lossy' else rng.choice([1, 2, 3]), 'specs': specs})
+    res = probe('cache', {'cases': cases})
+    if 'fatal' in res:
+        chk.broken.append({'kind': 'correspondence', 'stream': 'lru_cache', 'problem': res['fatal'][-800:]})
+    else:
+        lines = [' '.join(['cli', 'seqcache', c['mode'], str(c['jobs']), '.'.join(f'{i}:{i % max(c["jobs"], 1)}' for i in range(len(c['specs']))) or '-'] + c['specs']) for c in cases]
+        impl = ['ok ' + ','.join(r['lines']) if not r['error'] else 'err ' + r['error'].split(':')[0] for r in res['cases']]
+        chk.stream('lru_cache', lines, impl)
+        fresh_values = lambda c: [f"{sp.split('/')[0]}:{t}" for sp in c['specs'] for t in sp.split('/')[1].split('+')]
+        chk.coverage['lru_cache_cases_with_stale_value'] = sum(1 for c, r in zip(cases, res['cases']) if c['mode'] == 'lossy' and r['lines'] != fresh_values(c))
+    seqs = ['c', 'p', 'pc', 'pp', 'cpc', 'ppc', 'pcc', 'cpp', 'pcpc']
+    outs = E.parallel(lambda ops: probe('patch', {'ops': ops}, timeout=60), seqs, workers=WORKERS)
+    lines = ['cli patchseq ' + ops for ops in seqs]
+    impl = [','.join(o['outcomes']) if 'outcomes' in o else 'err ' + str(o.get('fatal'))[-200:] for o in outs]
+    chk.stream('patch_environment', lines, impl)
+
+# ------------------------------------------------------------------------------------------------ main
 
 def main():
     chk = common.Check('C03')
-    chk.prove('I18n.Props.C03', generated=())
+    import time
+    timing, t_last = {}, [time.time()]
+    def tick(name):
+        now = time.time()
+        timing[name] = round(timing.get(name, 0) + now - t_last[0], 1)
+        t_last[0] = now
+    chk.prove('I18n.Props.C03', generated=('state',))
+    tick('lean')
     rng = chk.rng
-    n_gen, n_corpus = (120, 120) if chk.thorough else (28, 24)
+    pins_broken = bool(chk.broken)
+    # the static scan again, in-process: search aid and coverage accounting (never a verdict by itself)
+    scan_sites = None
+    try:
+        import statescan as S
+        sc = S.Scan(common.REPO)
+        scan_sites = {'state': S.StateInventory(sc).sites, 'iter': S.IterInventory(sc).sites, 'mut': S.MutInventory(sc), 'nondet': S.NondetInventory(sc).sites}
+    except Exception as exc:
+        chk.coverage['inventory_error'] = f'{type(exc).__name__}: {exc}'
+    suspects = []
+    if scan_sites:
+        suspects += [s['key'] + ' [' + s['kind'] + ']' for s in scan_sites['state'] if s['kind'] in ('perFileMutated', 'impureCache', 'patchPerFile', 'mutableDefaultWritten', 'unknown')]
+        suspects += [s['key'] + ' [unsorted: ' + s['consumer'] + ']' for s in scan_sites['iter'] if s['verdict'] == 'unsorted']
+        suspects += [s['key'] + ' [' + s['root'] + ']' for s in scan_sites['mut'].sites if s['root'] not in ('localFresh', 'closure', 'selfAttr', 'perCallParam', 'element')]
+        suspects += [c['key'] + ' [' + c['role'] + ' not per call]' for c in scan_sites['mut'].creations if not c['perCall']]
+        suspects += [s['key'] + ' [nondeterminism: other]' for s in scan_sites['nondet'] if s['kind'] == 'other']
+    tick('scan')
+    driver_correspondence(chk)
+    cache_correspondence(chk)
+    tick('correspondence_streams')
+    n_gen, n_corpus = (120, 120) if chk.thorough else (24, 20)
+    found = []
     with E.Workdir() as wd:
-        files = build_files(chk, wd, n_gen, n_corpus)
-        # 1. single-file reference runs (PYTHONHASHSEED=0, -j 1)
-        ref = dict(zip(files, E.parallel(lambda f: E.run_cli([f], wd.path, hashseed='0'), files)))
+        classed = build_files(chk, wd, n_gen, n_corpus)
+        files = [f for f, _c in classed]
+        cls = dict(classed)
+        content = lambda f: open(os.path.join(wd.path, f), 'rb').read().decode('utf-8', 'replace')
+        # 1. single-file reference runs (PYTHONHASHSEED=0, -j 1, fresh process each)
+        ref = dict(zip(files, E.parallel(lambda f: E.run_cli([f], wd.path, hashseed='0'), files, workers=WORKERS)))
         chk.evaluations += len(files)
+        tick('reference_runs')
         nontrivial = {f for f, r in ref.items() if r['stdout'].strip()}
         chk.note_cases(nontrivial)
         bad_ref = [f for f, r in ref.items() if r['rc'] != 0 or r['stderr']]
-        # crashes are C01's business; here a crashing file simply has the output it has (stdout), but it is excluded from -j comparisons
+        # crashes are C01's business; a crashing file is excluded from the comparisons
         stable = [f for f in files if f not in bad_ref]
-        found = []
-        def expect(flist):
-            return ''.join(ref[f]['stdout'] for f in flist)
-        # 2. repeated runs and hash seeds, single file
+        def expect(flist, table=None):
+            return ''.join((table or ref)[f]['stdout'] for f in flist)
+        # 2. repeated runs and hash seeds, single file (escalated when a pin is broken: the falsifier needs the seed pair)
         seeds = ['1', '2', '3', '4', '5', '6', '7', '12345'] if chk.thorough else ['1', '2', '3', '7']
-        jobs = [(f, s) for f in stable for s in seeds]
-        outs = E.parallel(lambda js: E.run_cli([js[0]], wd.path, hashseed=js[1]), jobs)
+        if pins_broken:
+            seeds = [str(s) for s in range(1, 17)]
+        seed_files = [f for f in stable if cls[f] != 'big']
+        def seeds_for(f):
+            # quick tier: the files written to have several elements in every printed set under all seeds, the other hand-written ones under two,
+            # generated / corpus files under one more seed
+            if chk.thorough or pins_broken or cls[f] in ('flags', 'xml'):
+                return seeds
+            return rng.sample(seeds, 2 if cls[f].startswith(('cs:', 'twin:')) or cls[f] == 'plural' else 1)
+        jobs = [(f, s) for f in seed_files for s in seeds_for(f)]
+        outs = E.parallel(lambda js: E.run_cli([js[0]], wd.path, hashseed=js[1]), jobs, workers=WORKERS)
         chk.evaluations += len(jobs)
         for (f, s), r in zip(jobs, outs):
             if r['stdout'] != ref[f]['stdout']:
-                found.append({'kind': 'hash-seed', 'file': f, 'content': open(os.path.join(wd.path, f), 'rb').read().decode('utf-8', 'replace')[:1500],
-                              'seed_0': ref[f]['stdout'][:600], 'seed_' + s: r['stdout'][:600], 'seeds': ['0', s]})
-        # 3. multi-file invocations: whole list, rotations, prefixes, reversed; -j 1 / 2 / 5; several hash seeds
-        lists = [stable, stable[::-1]]
-        for k in ([1, 3, 7, len(stable) // 2] if chk.thorough else [1, len(stable) // 2]):
-            lists.append(stable[k:] + stable[:k])
+                found.append({'kind': 'hash-seed', 'file': f, 'content': content(f)[:1500], 'seed_0': ref[f]['stdout'][:600], 'seed_' + s: r['stdout'][:600], 'seeds': ['0', s],
+                              'suspect_sites': suspects[:8]})
+        tick('hash_seed_runs')
+        # 3. multi-file invocations: lists that interleave charsets / formats / flags / file types, rotations, reversal, sub-lists;
+        #    -j 1 / 2 / 3 / 5 with the big files early and in the middle; several hash seeds
+        inter = interleave([(f, cls[f]) for f in stable], rng)
+        big = [f for f in inter if cls[f] == 'big']
+        small = [f for f in inter if cls[f] != 'big']
+        uneven = small[:3] + big[:1] + small[3:len(small) // 2] + big[1:] + small[len(small) // 2:]
+        lists = [uneven, uneven[::-1]]
+        for k in ([1, 3, 7, len(uneven) // 2] if chk.thorough else [len(uneven) // 2]):
+            lists.append(uneven[k:] + uneven[:k])
+        css = [f for f in stable if cls[f].startswith('cs:')]
+        lists.append(css + css[::-1])                    # every charset before and after every other one, each path twice
+        fams = {}
+        for f in stable:
+            if cls[f].startswith('twin:'):
+                fams.setdefault(cls[f], []).append(f)
+        twin_lists = []
+        for fam, members in sorted(fams.items()):
+            twin_lists += [members, members[::-1]]       # each member after its predecessor and after its successor
+        all_twins = [f for fam in sorted(fams) for f in fams[fam]]
+        twin_lists.append(rng.sample(all_twins, len(all_twins)))
         for _ in range(6 if chk.thorough else 2):
-            sub = rng.sample(stable, k=min(len(stable), rng.randint(2, 9)))
-            lists.append(sub)
+            lists.append(rng.sample(stable, k=min(len(stable), rng.randint(2, 9))))
+        if pins_broken:
+            for a in css[:6]:
+                for b in css[:6]:
+                    if a != b:
+                        lists.append([a, b])
         runs = []
         for fl in lists:
-            for j in (['1', '2', '5'] if chk.thorough else ['1', '3']):
-                runs.append((fl, j, rng.choice(['0', '1', '2'])))
-        outs = E.parallel(lambda r: E.run_cli(['-j', r[1]] + r[0], wd.path, hashseed=r[2], timeout=600), runs, workers=4)
+            for j in (['1', '2', '5'] if chk.thorough else (['1', '3'] if len(fl) > 12 else [rng.choice(['1', '2', '3'])])):
+                runs.append((fl, j, rng.choice(['0', '1', '2']), []))
+        for fl in twin_lists:
+            runs.append((fl, '1', rng.choice(['0', '1', '2']), []))      # one process: the members share every cache
+        if chk.thorough or pins_broken:
+            for fam, members in sorted(fams.items()):
+                for a in members:
+                    for b in members:
+                        if a != b:
+                            runs.append(([a, b], '1', '0', []))
+        # option sets (configurations): the same options object is shared by all files of an invocation
+        deb = build_deb(wd)
+        optsets = [['-l', 'de'], ['-l', 'sr@latin'], ['--unpack-deb'], ['--file-type', 'po'], ['--unpack-deb', '-l', 'pt_BR']] if chk.thorough else \
+                  [['-l', 'sr@latin'], ['--unpack-deb'], ['--file-type', 'po']]
+        others = [f for f in stable if cls[f] == 'other']
+        opt_base = others + [f for f in stable if cls[f] == 'twin:modifier'][:3] + [f for f in stable if cls[f] == 'twin:type'] + \
+                   [f for f in interleave([(f, cls[f]) for f in stable if cls[f] not in ('big', 'other') and not cls[f].startswith('twin:')], rng)][:(24 if chk.thorough else 6)]
+        opt_ref = {}
+        for o in optsets:
+            opt_files = list(opt_base)
+            if deb and '--unpack-deb' in o:
+                # the package first, in the middle and last: files that are not gettext files come after it and before it
+                opt_files = [deb] + opt_files[:len(opt_files) // 2] + [deb] + opt_files[len(opt_files) // 2:]
+            uniq = list(dict.fromkeys(opt_files))
+            rs = E.parallel(lambda f: E.run_cli(o + [f], wd.path, hashseed='0'), uniq, workers=WORKERS)
+            chk.evaluations += len(uniq)
+            opt_ref[tuple(o)] = dict(zip(uniq, rs))
+            ok_files = [f for f in opt_files if opt_ref[tuple(o)][f]['rc'] == 0 and not opt_ref[tuple(o)][f]['stderr']]
+            runs.append((ok_files, '1', '1', o))
+            runs.append((ok_files[::-1], '1', '0', o))
+            runs.append((ok_files, '2', '0', o))
+        outs = E.parallel(lambda r: E.run_cli(r[3] + ['-j', r[1]] + r[0], wd.path, hashseed=r[2], timeout=600), runs, workers=WORKERS)
         chk.evaluations += len(runs)
-        for (fl, j, s), r in zip(runs, outs):
-            if r['stdout'] != expect(fl):
-                # locate the first file whose block differs
+        for (fl, j, s, o), r in zip(runs, outs):
+            table = opt_ref[tuple(o)] if o else ref
+            if r['stdout'] != expect(fl, table):
                 got = r['stdout']
                 pos = 0
                 culprit = None
                 for f in fl:
-                    blk = ref[f]['stdout']
+                    blk = table[f]['stdout']
                     if got[pos:pos + len(blk)] != blk:
                         culprit = f
                         break
@@ -98,17 +394,92 @@ def main():
                 minimal = None
                 if culprit is not None:
                     before = fl[:fl.index(culprit)]
-                    pairs = E.parallel(lambda g: E.run_cli(['-j', j, g, culprit], wd.path, hashseed=s), before[:60])
+                    pairs = E.parallel(lambda g: E.run_cli(o + ['-j', j, g, culprit], wd.path, hashseed=s), before[:60], workers=WORKERS)
                     for g, pr in zip(before, pairs):
-                        if pr['stdout'] != ref[g]['stdout'] + ref[culprit]['stdout']:
-                            minimal = {'files': [g, culprit],
-                                       'contents': [open(os.path.join(wd.path, x), 'rb').read().decode('utf-8', 'replace')[:3000] for x in (g, culprit)],
-                                       'got': pr['stdout'][:1500], 'expected': (ref[g]['stdout'] + ref[culprit]['stdout'])[:1500]}
+                        if pr['stdout'] != table[g]['stdout'] + table[culprit]['stdout']:
+                            minimal = {'files': [g, culprit], 'contents': [content(x)[:3000] for x in (g, culprit)],
+                                       'got': pr['stdout'][:1500], 'expected': (table[g]['stdout'] + table[culprit]['stdout'])[:1500]}
                             break
-                found.append({'kind': 'multi-file', 'jobs': j, 'seed': s, 'files': fl[:40], 'first_differing_file': culprit, 'minimal_history': minimal,
-                              'expected_block': (ref[culprit]['stdout'][:600] if culprit else None), 'got_from_there': got[pos:pos + 600], 'stderr': r['stderr'][-400:]})
-        chk.coverage['determinism'] = {'files': len(files), 'files_with_output': len(nontrivial), 'excluded_crashing_files': bad_ref[:10],
-                                       'single_file_runs': len(jobs), 'multi_file_runs': len(runs), 'hash_seeds': seeds, 'job_counts': sorted({r[1] for r in runs})}
+                found.append({'kind': 'multi-file', 'jobs': j, 'seed': s, 'options': o, 'files': fl[:40], 'first_differing_file': culprit, 'minimal_history': minimal,
+                              'expected_block': (table[culprit]['stdout'][:600] if culprit else None), 'got_from_there': got[pos:pos + 600], 'stderr': r['stderr'][-400:],
+                              'suspect_sites': suspects[:8]})
+        tick('multi_file_runs')
+        # 4. histories inside ONE process: the real main() with check_all called several times — the same relative paths with OTHER
+        #    contents (second directory), reversed, twice in one list, then through the pool
+        hand = [f for f in stable if cls[f] in ('flags', 'xml', 'twin:modifier', 'twin:type', 'twin:plural')] + [f for f in stable if cls[f].startswith('cs:')][:4] + [f for f in stable if cls[f] == 'plural'] + \
+               [f for f in stable if cls[f] == 'mo'][:3] + [f for f in stable if cls[f] == 'pot'][:2]
+        rest = [f for f in interleave([(f, cls[f]) for f in stable if cls[f] not in ('big',)], rng) if f not in hand][:(30 if chk.thorough else 8)]
+        sub = interleave([(f, cls[f]) for f in hand + rest], rng)
+        alt_dir = os.path.join(wd.path, 'alt')
+        by_ext = {}
+        for f in sub:
+            by_ext.setdefault(os.path.splitext(f)[1], []).append(f)
+        for ext, fs in by_ext.items():
+            for f, g in zip(fs, fs[1:] + fs[:1]):          # path f gets the bytes of g
+                dst = os.path.join(alt_dir, f)
+                os.makedirs(os.path.dirname(dst), exist_ok=True)
+                with open(dst, 'wb') as h:
+                    h.write(open(os.path.join(wd.path, g), 'rb').read())
+        alt_ref = dict(zip(sub, E.parallel(lambda f: E.run_cli([f], alt_dir, hashseed='0'), sub, workers=WORKERS)))
+        chk.evaluations += len(sub)
+        sub = [f for f in sub if alt_ref[f]['rc'] == 0 and not alt_ref[f]['stderr']]
+        phases = [{'cwd': wd.path, 'files': sub, 'jobs': 1, 'trace': True, 'table': 'ref'},
+                  {'cwd': alt_dir, 'files': sub, 'jobs': 1, 'trace': True, 'table': 'alt'},
+                  {'cwd': wd.path, 'files': sub[::-1], 'jobs': 1, 'table': 'ref'},
+                  {'cwd': alt_dir, 'files': sub + sub[:5], 'jobs': 3, 'table': 'alt'},
+                  {'cwd': wd.path, 'files': [x for f in sub[:8] for x in (f, f)], 'jobs': 1, 'table': 'ref'}]
+        res = probe('inproc', {'argv': [], 'phases': [{k: v for k, v in ph.items() if k != 'table'} for ph in phases]})
+        traced = {}
+        if 'fatal' in res or res.get('error') or len(res.get('phases', [])) != len(phases):
+            found.append({'kind': 'in-process', 'problem': res.get('fatal') or res.get('error') or 'missing phases', 'suspect_sites': suspects[:8]})
+        else:
+            chk.evaluations += sum(len(ph['files']) for ph in phases)
+            for i, (ph, r) in enumerate(zip(phases, res['phases'])):
+                table = ref if ph['table'] == 'ref' else alt_ref
+                exp = expect(ph['files'], table)
+                if r['error'] or r['stdout'] != exp:
+                    pos, culprit = 0, None
+                    for f in ph['files']:
+                        blk = table[f]['stdout']
+                        if r['stdout'][pos:pos + len(blk)] != blk:
+                            culprit = f
+                            break
+                        pos += len(blk)
+                    found.append({'kind': 'in-process', 'phase': i, 'what': 'real main(); check_all called %d times in one process; phase %d = %s directory, %d files, jobs=%d' %
+                                  (len(phases), i, 'second (same paths, other contents)' if ph['table'] == 'alt' else 'first', len(ph['files']), ph['jobs']),
+                                  'files_of_the_phase': ph['files'][:40], 'earlier_phases': [(p['table'], len(p['files']), p['jobs']) for p in phases[:i]],
+                                  'first_differing_file': culprit, 'content': (open(os.path.join(ph['cwd'], culprit), 'rb').read().decode('utf-8', 'replace')[:2000] if culprit else None),
+                                  'expected_block': (table[culprit]['stdout'][:600] if culprit else None), 'got_from_there': r['stdout'][pos:pos + 600], 'error': r['error'],
+                                  'suspect_sites': suspects[:8]})
+                    break
+            traced = {k: set(v) for k, v in res.get('lines', {}).items()}
+        tick('in_process_phases')
+        chk.coverage['timing_s'] = timing
+        # evidence: distribution, and which inventory sites the runs went through
+        chk.coverage['determinism'] = {'files': len(files), 'by_class': {c: sum(1 for _f, k in classed if k == c) for c in sorted(set(cls.values()))},
+                                       'files_with_output': len(nontrivial), 'excluded_crashing_files': bad_ref[:10],
+                                       'single_file_runs': len(jobs), 'hash_seeds': seeds, 'multi_file_runs': len(runs), 'job_counts': sorted({r[1] for r in runs}),
+                                       'option_sets': optsets, 'debian_package_among_the_files': bool(deb), 'twin_families': {k: len(v) for k, v in sorted(fams.items())}, 'in_process_phases': [(p['table'], len(p['files']), p['jobs']) for p in phases],
+                                       'list_lengths': sorted({len(r[0]) for r in runs})}
+        if scan_sites:
+            def cov(sites, pred=lambda s: True):
+                sel = [s for s in sites if s.get('lineno') and s.get('path') == 'perFile' and pred(s)]
+                hit = [s for s in sel if s['lineno'] in traced.get(s['file'], ())]
+                return {'sites': len(sel), 'executed_by_the_traced_in_process_lists': len(hit), 'not_executed': sorted({s['key'] for s in sel if s not in hit})[:25]}
+            from collections import Counter
+            chk.coverage['inventory'] = {
+                'state_sites_by_kind': dict(Counter(s['kind'] for s in scan_sites['state'])),
+                'iteration_sites_by_verdict': dict(Counter(s['verdict'] for s in scan_sites['iter'])),
+                'mutation_roots': dict(Counter(s['root'] for s in scan_sites['mut'].sites)),
+                'creation_sites': dict(Counter(c['role'] for c in scan_sites['mut'].creations)),
+                'nondeterminism_sources': dict(Counter(s['kind'] for s in scan_sites['nondet'])),
+                'suspect_sites': suspects,
+                'note': 'coverage is measured over sites in functions of the per-file path, by a line trace of the sequential in-process phases '
+                        '(import-time and start-up sites run before the trace starts; pool workers are not traced)',
+                'coverage_iteration_sites': cov(scan_sites['iter']),
+                'coverage_mutation_sites': cov(scan_sites['mut'].sites),
+                'coverage_cache_and_redirect_sites': cov(scan_sites['state']),
+            }
         chk.coverage['samples'].append({'file': files[2], 'output_head': ref[files[2]]['stdout'][:300]})
         # classify
         reported = False
@@ -122,16 +493,27 @@ def main():
                 reported = True
                 break
         if not reported and chk.broken and not chk.violations:
-            chk.violation('proof obligation no longer checks', {'broken': chk.broken}, no_input=True)
+            chk.violation('proof obligation no longer checks', {'broken': chk.broken, 'suspect_sites': suspects}, no_input=True)
     chk.finish(
         level='proof',
-        rule='generated PO/POT files (header-field mutations x message templates incl. all four format flags, plurals, contexts, obsolete, fuzzy) + a random part of the '
-             "project's black-box corpus + one large file; each file alone (seed 0) is the reference; non-trivial = file with non-empty output",
-        trusted=['Lean 4.33 kernel, standard axioms', 'assumed contract of concurrent.futures.Executor.map written into the model (results in submission order, each task once)',
-                 'that the per-file output is a function of the file alone is NOT provable in a model: decided by the determinism runs of the real CLI'],
-        explanation='PROVED (model of cli.check_all): jobs_schedule_irrelevant, concat_of_single_runs - for every job count and every completion order the output is the concatenation, '
-                    'in argument order, of the per-file outputs. TEST level (real CLI in subprocesses): identical output across PYTHONHASHSEED values, repeated runs, rotations/prefixes/'
-                    'reversals of the file list and -j 1/2/3/5, each compared with the single-file reference output.')
+        rule='files: header-field mutations x message templates (all four format flags, plurals, contexts, obsolete, fuzzy), the same text under eight declared charsets, '
+             'multi-flag messages, a file with several elements in every printed set, XML fragments, LC_MESSAGES paths with eight Plural-Forms shapes, MO files compiled from '
+             "generated PO files, part of the project's black-box corpus, two large files; lists interleave these classes; each file alone (seed 0, fresh process) is the reference; "
+             'non-trivial = file with non-empty output',
+        trusted=['Lean 4.33 kernel, standard axioms',
+                 'assumed contract of concurrent.futures.ProcessPoolExecutor.map written into the models (each task run once, in a worker forked from the parent; results delivered in '
+                 'submission order) — exercised by the check_all correspondence on the real executor',
+                 'the classifier rules of tools/translate/statescan.py (name-based call graph, path classes, value mutability, purity of cached functions, set-typing, order-free consumers, '
+                 'root of a mutation) — listed in DESIGN-notes/determinism.md; its blind spots (aliases of globals, set-typed values it cannot see) are what the determinism runs are for',
+                 'CPython: dict iteration is insertion-ordered; set iteration order is SOME permutation of the elements (nothing else is assumed)',
+                 'real hash order and OS scheduling are exercised only by the runs (test level)'],
+        explanation='PROVED. (1) pins over the inventories regenerated from the source: global_state_sites_benign, unordered_iteration_sites_sorted, lookup_tables_have_distinct_keys, '
+                    'per_file_mutations_hit_per_call_objects, accumulators_per_call, nondeterminism_sources_benign. (2) model of main / check_all / check_file_s / check_file with explicit global '
+                    'state (patched flag, caches; per-worker state in the pool): no_history, no_history_perm, multi_file_concat, main_concat_of_single_runs, patch_environment_once; '
+                    'stale_cache_breaks_no_history (what the pureCache pin excludes). (3) hash-order model (set iteration = arbitrary permutation): sorted_kills_order and the per-site '
+                    'corollaries sorted_join/sorted_for/sorted_by_injective_key/any_match/dict_get/best_match/the_only _seed_independent; raw_join_depends_on_seed, tie_in_key_leaks_order. '
+                    '(4) jobs_schedule_irrelevant, concat_of_single_runs (stateless model), tied to the real check_all by the check_all correspondence. '
+                    'TEST level: real hash order, real scheduling, and everything the classifier cannot see — the determinism runs.')
 
 if __name__ == '__main__':
     common.main_wrapper(main)
